@@ -12,10 +12,53 @@
       (or the stronger `∃ r, f input = .ok r` where the Go function has no error result).  Where the
       owning property file already proves it, the theorem is re-exported under the entry point's
       name; the others are proved in Lemmas/C07Total.lean and Lemmas/C14Total.lean.
-    * the allocation clause where the model makes it expressible: `llmnr_name_alloc_bound` (the one
-      decoder that copies more than it reads: compression pointers), and `|output| ≤ |input|` bounds
-      for the decoders whose results are sub-slices or copies of the input (key material, DN-with-
-      binary, PKCS#7, the C06 byte counts).
+    * the allocation clause, as theorems `*_alloc_bound` about every family (summary below).
+
+  ALLOCATION — what is proved.  Size of a value: one per byte of a (byte) string field, 8 per integer
+  field, summed over lists and map entries.  Where the Go code allocates by a number read from the
+  input, the model has a function `…AllocOf` (or, for the SMB command IR, `allocCmd`) that follows the
+  Go `make` / `append` / copy statements in their order and says what has been allocated when the
+  function returns ON EVERY PATH, error returns included; the bound is proved for every input and the
+  decoded value is proved no bigger than that allocation.  An "allocate by the announced count, check
+  the length afterwards" defect is therefore a counterexample to the theorem (an `example` beside
+  each shows the eager variant breaking the bound on a few bytes), not something invisible.
+
+    family / entry point                         bound (L = length of the input)                theorem
+    SMB commands (115, regenerated programs)     allocCmd ≤ 300·L + 154 694 on every path;      smb_decode_alloc_bound,
+                                                  value ≤ initial values + the same              smb_decode_value_alloc_bound
+       every make([]T, c.G) behind its guard     decided by the kernel, proved sufficient       smb_all_commands_alloc_guarded, alloc_guarded_sound
+       nested decoders                           cost ≤ window + 130; value ≤ cost              std_alloc_codecs
+       SMB_STRING make([]UCHAR, n)               n ≤ L; decoded buffer = n                      smb_string_alloc_bound
+       Parameters / Data / Dialects              2·words < L; bytes + 2 ≤ L; Σ names ≤ L        parameters_/data_/dialects_alloc_bound
+    LLMNR DecodeMessage                          48 + L + count·(L² + 32), 5·count + 12 ≤ L     llmnr_decode_message_alloc_bound
+                                                  (polynomial: name compression)                 llmnr_name_alloc_bound
+       RDATA make([]byte, RDLength)              reached only when RDLength bytes follow        llmnr_rdata_alloc_bound
+    NBNS Unmarshal                               8·L                                            nbns_unmarshal_alloc_bound, nbns_rdata_alloc_bound,
+                                                                                                 nbns_first_level_decode_alloc_bound
+    NBT Receive                                  4 + 131 071 whatever is sent (FIXED CAP: the   nbt_receive_alloc_bound
+                                                  body is allocated from the announced length
+                                                  before it is read); a message = that buffer
+    KeyCredential.FromBytes                      allocated ≤ 2·L; size ≤ 3·L + 160              key_credential_parse(_fresh)_alloc_bound
+    RSAKeyMaterial / CustomKeyInformation        ≤ L (views) / ≤ L                              rsa_key_material_parse_alloc_bound, custom_key_information_alloc_bound
+    DNWithBinary.Parse                           ≤ L, = size of the parsed value                dn_with_binary_parse_alloc_bound
+    ConvertToBinaryIdentifier                    ≤ L                                            key_credential_identifier_alloc_bound
+    version / GUID / binary time                 ≤ 20 / 40 / 24                                 key_credential_fixed_alloc_bound
+    ParseTargetInfo                              stored ≤ 2·L on every path; entries ≤ L/4      ntlm_target_info_alloc_bound
+    ParseChallengeMessage                        ≤ 2·L + 48                                     ntlm_challenge_parse_alloc_bound
+    asn1 field / NegTokenResp / ExtractNTLMToken ≤ L / ≤ 8·L / token + 6 ≤ L                    asn1_field_, spnego_neg_token_resp_, spnego_extract_alloc_bound
+    ProcessChallengeToken                        linear in the credentials, ≤ 327 811           spnego_process_challenge_alloc_bound
+    pkcs7.Unpad                                  < L (a re-slice)                               pkcs7_unpad_alloc_bound
+    DecodeUTF16LE                                ≤ 9·(L/2); text ≤ 3·(L/2)                      utf16_decode_alloc_bound
+    GPPPDecryptBytes / Base64                    ≤ 6·L + 16 / ≤ 7·L + 32                        gpp_decrypt_bytes_/gpp_decrypt_base64_alloc_bound
+    ParseSIDFromBytes                            ≤ 10·L; text ≤ 3·L + 2                         sid_alloc_bound
+    GetDomainFromDistinguishedName               result ≤ L; intermediate strings ≤ (L+1)(L+16) dn_domain_alloc_bound
+                                                  — QUADRATIC, and measured so on the real code
+                                                  (fixes/C07-dn-domain-quadratic.diff proposed)
+    UUID / GUID, LDAP times, IP / port / LM:NT   constants (23…64)                              uuid_guid_/ldap_time_/address_parsers_fixed_alloc_bound
+
+  Not modelled (measured only, by the allocation audit of tools/harness/engine.go on the real code):
+  the Go runtime's own overhead per object, `append` growth factors (at most 2), error values and
+  `fmt` temporaries, stdlib scratch space, and the harness's allowance (256 KiB + 1 KiB per input byte).
 
   Termination: every model function is a total Lean definition (structural recursion, or
   well-founded recursion with a proved measure: the LLMNR/NBNS pointer walk, the key-credential
@@ -50,6 +93,13 @@ import Manticore.Lemmas.C07Total
 import Manticore.Lemmas.C14Total
 import Manticore.Lemmas.SmbGuarded
 import Manticore.Lemmas.SmbCodecsHonest
+import Manticore.Lemmas.SmbAlloc
+import Manticore.Lemmas.SmbCodecsAlloc
+import Manticore.Lemmas.C07AllocNet
+import Manticore.Lemmas.C07AllocKeys
+import Manticore.Lemmas.C07AllocNtlm
+import Manticore.Lemmas.C07AllocRest
+import Manticore.Lemmas.C07AllocFixed
 namespace Manticore.C07
 open Manticore Manticore.SmbIR Manticore.Gen.SmbCommands
 
@@ -269,6 +319,100 @@ theorem dialects_decode_bounded (b : Bytes) (v : List Bytes) (k : Nat)
     (h : Manticore.SmbCodecs.dialectsDec b = .ok (v, k)) : k ≤ b.length ∧ (b ≠ [] → 0 < k) :=
   ⟨Manticore.SmbCodecs.dialectsDec_bounded b v k h, Manticore.SmbCodecs.dialectsDec_pos b v k h⟩
 
+/-! ### allocation, SMB commands: the cost of a run is linear in the input (Lemmas/SmbAlloc.lean)
+
+`allocCmd C A c env0 data` (Model/SmbAlloc.lean) adds up what the model of `Unmarshal` materialises —
+envelope, every field stored, every `make`, every nested decoder's `make` — statement by statement
+in the order of the Go code and **on every path**: a run that ends in an error has paid for what
+it allocated before the failing check.  `makeInts f g` (`c.F = make([]T, c.G)`) costs `8·c.G` where
+it stands.  The static predicate `AllocGuarded` says that each such statement stands directly behind
+the guard `len(blk) < offset + w·int(c.G)` (`w ≥ 1`) and that every loop consumes input; the kernel
+decides it on the regenerated programs, `alloc_guarded_sound` proves it sufficient, and the value
+returned is no bigger than the cost (`smb_decode_value_alloc_bound`). -/
+
+/-- **no regenerated unmarshal program allocates by an unchecked announced count**: in all 115
+    command structures every `make([]T, c.G)` stands directly behind a guard comparing `w·c.G`
+    (`w ≥ 1`) with what is left of the block, every counted loop reads elements of non-zero width and
+    every loop over nested values has a non-zero window.  A `make` moved in front of its guard makes
+    this fail to check. -/
+theorem smb_all_commands_alloc_guarded : commands.all AllocGuarded = true := by decide +kernel
+
+/-- the cost table of the nested decoders (`SmbCodecs.stdAlloc`; `SMB_STRING.Unmarshal`'s
+    `make([]UCHAR, s.Length)` through `SmbString.allocOf`) satisfies the two laws: a decoder allocates
+    at most its window plus 130 bytes, and returns no more than it allocated -/
+theorem std_alloc_codecs : AllocCodecs Manticore.SmbCodecs.std Manticore.SmbCodecs.stdAlloc 130 :=
+  Manticore.SmbCodecs.std_alloc
+
+/-- **soundness of `AllocGuarded`**: the cost of decoding any input with an accepted program — failing
+    runs included — is at most `slope·len(data) + const`, the two numbers computed from the program
+    text (`Cmd.allocSlope`, `Cmd.allocConst`), for any honest codec table with a lawful cost table -/
+theorem alloc_guarded_sound (C : Codecs) (hC : HonestCodecs C) (A : String → Bytes → Nat) (a0 : Nat)
+    (hA : AllocCodecs C A a0) (c : Cmd) (hg : AllocGuarded c = true) :
+    ∀ env0 data, allocCmd C A c env0 data ≤ c.allocSlope a0 * data.length + c.allocConst a0 :=
+  fun env0 data => allocCmd_le C hC A a0 hA c hg env0 data
+
+/-- the constants of the 115 regenerated programs: at most 300 bytes per input byte
+    (`LockingAndxRequest`: two loops over 20-byte ranges) and 154 694 bytes besides (of which 153 600
+    = 300 × the 512-byte backing array of the parameter stream, 1 022 the envelope) -/
+theorem smb_alloc_constants : commands.all (fun c => decide (c.allocSlope 130 ≤ 300 ∧ c.allocConst 130 ≤ 154694)) = true := by
+  decide +kernel
+
+/-- **allocation, every SMB command decoder**: for each of the 115 regenerated command structures,
+    every initial field assignment and every input, what the model of `Unmarshal` allocates — on
+    every path, error returns included — is at most `300·len(data) + 154694` bytes -/
+theorem smb_decode_alloc_bound : ∀ c ∈ Manticore.Gen.SmbCommands.commands, ∀ env0 data,
+    allocCmd Manticore.SmbCodecs.std Manticore.SmbCodecs.stdAlloc c env0 data ≤ 300 * data.length + 154694 := by
+  intro c hc env0 data
+  have hg : AllocGuarded c = true := List.all_eq_true.mp smb_all_commands_alloc_guarded c hc
+  have hk := List.all_eq_true.mp smb_alloc_constants c hc
+  simp only [decide_eq_true_eq] at hk
+  have h := alloc_guarded_sound _ std_honest _ 130 std_alloc_codecs c hg env0 data
+  have h2 := Nat.mul_le_mul_right data.length hk.1
+  omega
+
+/-- **the decoded value is no bigger than what was allocated for it**: a successful `Unmarshal`
+    returns field values of total size (`envSize`: one per byte, 8 per integer, summed over lists)
+    at most that of the receiver's initial values plus `300·len(data) + 154694`.  `KeysNodup env0`: no
+    field name is listed twice (Go field names are distinct). -/
+theorem smb_decode_value_alloc_bound : ∀ c ∈ Manticore.Gen.SmbCommands.commands, ∀ env0 data env,
+    KeysNodup env0 → decodeCmd Manticore.SmbCodecs.std c env0 data = .ok env →
+    envSize env ≤ envSize env0 + 300 * data.length + 154694 := by
+  intro c hc env0 data env hn h
+  have h1 := decodeCmd_value_le _ _ 130 std_alloc_codecs c env0 env data hn h
+  have h2 := smb_decode_alloc_bound c hc env0 data
+  omega
+
+/-- non-vacuity: a concrete command is accepted, a program with the `make` in front of its guard is
+    not, and that program's cost is not bounded by the input: 8·255 bytes for a two-byte block -/
+example : AllocGuarded cmd_TransactionRequest = true := by decide
+private def witnessEagerMake : Cmd := { (default : Cmd) with unmarshal :=
+  [.guard .P (.lit 1), .readU8 .P "N", .advance (.lit 1), .makeInts "X" "N", .guard .P (.mul 2 (.fint "N")),
+   .forCountInt .P 2 .le "X" "N"] }
+example : AllocGuarded witnessEagerMake = false := by decide
+example : allocU Manticore.SmbCodecs.std Manticore.SmbCodecs.stdAlloc witnessEagerMake [] 1 [255, 0] [] = 2048 := by decide
+example : runU Manticore.SmbCodecs.std witnessEagerMake [] 1 [255, 0] [] = .err := by decide
+example : KeysNodup [("FID", .n 0), ("X", .b [])] := by unfold KeysNodup; decide
+
+/-- `SMB_STRING.Unmarshal` (also `OEM_STRING`): the `make([]UCHAR, n)` it reaches is no bigger than
+    the input, and the decoded buffer is exactly that allocation -/
+theorem smb_string_alloc_bound (b : Bytes) :
+    Manticore.C06.SmbString.allocOf b ≤ b.length ∧
+    ∀ v k, Manticore.C06.SmbString.decode b = .ok (v, k) → v.buffer.length = Manticore.C06.SmbString.allocOf b :=
+  ⟨Manticore.C06.SmbString.allocOf_le b, fun v k h => Manticore.C06.SmbString.decode_alloc b v k h⟩
+/-- `Parameters.Unmarshal`: `make([]uint16, WordCount)` only when twice as many bytes follow the count -/
+theorem parameters_alloc_bound (b : Bytes) (v : Manticore.C06.Parameters.V) (k : Nat)
+    (h : Manticore.C06.Parameters.decode b = .ok (v, k)) : 2 * v.words.length < b.length :=
+  Manticore.C06.Parameters.decode_alloc b v k h
+/-- `Data.Unmarshal`: the bytes are a piece of the input behind the two-byte count -/
+theorem data_alloc_bound (b : Bytes) (v : Manticore.C06.Data.V) (k : Nat)
+    (h : Manticore.C06.Data.decode b = .ok (v, k)) : v.bytes.length + 2 ≤ b.length :=
+  Manticore.C06.Data.decode_alloc b v k h
+/-- `Dialects.Unmarshal`: the names are disjoint pieces of the input -/
+theorem dialects_alloc_bound (b : Bytes) (names : List Bytes) (k : Nat)
+    (h : Manticore.SmbCodecs.dialectsDec b = .ok (names, k)) : (names.map List.length).sum ≤ b.length := by
+  have := Manticore.SmbCodecs.dialectsDecAux_size _ _ _ _ _ _ h
+  simpa using this
+
 /-! ### NTLMSSP and SPNEGO tokens (models of C08) -/
 
 /-- `ntlm.ParseChallengeMessage` never panics (with fixes/C08-challenge-offset-wrap.diff) -/
@@ -288,6 +432,54 @@ theorem spnego_neg_token_resp_total (d : Bytes) : Manticore.C08.parseNegTokenRes
 theorem spnego_process_challenge_total (upper utf16 : Bytes → Bytes) (token user domain ws lm nt : Bytes) :
     Manticore.C08.processChallengeToken upper utf16 token user domain ws lm nt ≠ .panic :=
   Manticore.C07T.processChallenge_no_panic upper utf16 token user domain ws lm nt
+
+/-! #### allocation (Model/C08Alloc.lean, Lemmas/C07AllocNtlm.lean) -/
+
+/-- **allocation, `ntlm.ParseTargetInfo`**: what the loop stores into its map — 8 + the value length per
+    executed `result[avId] = targetInfo[offset:offset+int(avLen)]`, on every path, both error returns
+    included (`parseTargetInfoAllocOf`) — is at most `2·len(ti)`; a returned map has at most
+    `len(ti)/4` entries (four bytes of framing each) and is no bigger than what was stored (a
+    repeated key overwrites) -/
+theorem ntlm_target_info_alloc_bound (ti : Bytes) :
+    Manticore.C08.parseTargetInfoAllocOf ti ≤ 2 * ti.length ∧
+    ∀ m, Manticore.C08.parseTargetInfo ti = .ok m →
+      Manticore.C08.avMapSize m ≤ Manticore.C08.parseTargetInfoAllocOf ti ∧ m.length * 4 ≤ ti.length :=
+  ⟨Manticore.C07A.Ntlm.parseTargetInfoAllocOf_le ti, fun m h => Manticore.C07A.Ntlm.parseTargetInfo_alloc ti m h⟩
+/-- **allocation, `ntlm.ParseChallengeMessage`** (no `make`: the two variable fields are slice
+    expressions behind the 64-bit offset+length guard): target name and target info each fit in the
+    input and in 16 bits, the three arrays have 8 bytes, `challengeSize c ≤ 2·len(d) + 48` (the two
+    fields may alias the same bytes) -/
+theorem ntlm_challenge_parse_alloc_bound (d : Bytes) (c : Manticore.C08.Challenge) (h : Manticore.C08.parseChallenge d = .ok c) :
+    c.targetName.length ≤ d.length ∧ c.targetName.length ≤ 65535 ∧
+    c.targetInfo.length ≤ d.length ∧ c.targetInfo.length ≤ 65535 ∧
+    c.serverChallenge.length = 8 ∧ c.reserved.length = 8 ∧ c.version.length = 8 ∧
+    Manticore.C08.challengeSize c ≤ 2 * d.length + 48 :=
+  Manticore.C07A.Ntlm.parseChallenge_alloc_bound d c h
+/-- the content copy of one `encoding/asn1` field (`parseField`: the announced length once "data
+    truncated" has been passed, 0 on every earlier return) never exceeds the input -/
+theorem asn1_field_alloc_bound (e : Option Nat) (utag : Nat) (comp : Bool) (b : Bytes) :
+    Manticore.C08.parseFieldAllocOf e utag comp b ≤ b.length :=
+  Manticore.C07A.Ntlm.parseFieldAllocOf_le e utag comp b
+/-- **allocation, `spnego.ParseNegTokenResp`**: the three variable fields and six bytes of framing fit in
+    the input; `negTokenRespSize r ≤ 8·len(d)` (one `int` per OID content byte) -/
+theorem spnego_neg_token_resp_alloc_bound (d : Bytes) (r : Manticore.C08.NegTokenResp)
+    (h : Manticore.C08.parseNegTokenResp d = .ok r) :
+    r.supportedMech.length + r.responseToken.length + r.mechListMIC.length + 6 ≤ d.length ∧
+    Manticore.C08.negTokenRespSize r ≤ 8 * d.length :=
+  Manticore.C07A.Ntlm.parseNegTokenResp_alloc_bound d r h
+/-- **allocation, `spnego.ExtractNTLMToken`**: the token is a proper piece of the input -/
+theorem spnego_extract_alloc_bound (d t : Bytes) (h : Manticore.C08.extractNTLMToken d = .ok t) :
+    0 < t.length ∧ t.length + 6 ≤ d.length :=
+  Manticore.C07A.Ntlm.extractNTLMToken_alloc_bound d t h
+/-- **allocation, `AuthContext.ProcessChallengeToken`**: the authenticate token built from a decoded
+    challenge is linear in the credentials and responses (coefficient 0 in the server's token) and
+    never exceeds 327811 bytes (the `len(field) > 0xFFFF` guards of the builder) -/
+theorem spnego_process_challenge_alloc_bound (upper utf16 : Bytes → Bytes) (token user domain ws lm nt out : Bytes)
+    (h : Manticore.C08.processChallengeToken upper utf16 token user domain ws lm nt = .ok out) :
+    out.length ≤ lm.length + nt.length + ((utf16 domain).length + domain.length) +
+        ((utf16 user).length + user.length) + ((utf16 (upper ws)).length + (upper ws).length) + 136 ∧
+    out.length ≤ 327811 :=
+  Manticore.C07A.Ntlm.processChallengeToken_alloc_bound upper utf16 token user domain ws lm nt out h
 
 /-! ### LLMNR packets (model of C09) -/
 
@@ -320,6 +512,59 @@ theorem nbns_first_level_decode_total (e : Bytes) : Manticore.C10.firstLevelDeco
 theorem nbt_receive_total (s : Manticore.C11.Stream) : Manticore.C11.receive s ≠ .panic :=
   Manticore.C11.receive_total s
 
+/-! ### allocation, network decoders (Model/NetAlloc.lean, Lemmas/C07AllocNet.lean) -/
+
+/-- **allocation, `llmnr.DecodeMessage`**: the decoded message (`Message.size`: 48 for the header,
+    per question its name + 16, per record its name + 32 + its RDATA) is at most
+    `48 + len(data) + count·(len(data)² + 32)` with `5·count + 12 ≤ len(data)` — polynomial (cubic at
+    worst) in the input, not linear: name compression lets every record point at the same long
+    name and each decoded name is a fresh string (`llmnr_name_alloc_bound`). -/
+theorem llmnr_decode_message_alloc_bound (data : Bytes) (m : Manticore.C09.Message)
+    (h : Manticore.C09.decodeMessage data = .ok m) :
+    m.size ≤ 48 + data.length + m.count * (data.length * data.length + 32) ∧ 5 * m.count + 12 ≤ data.length :=
+  Manticore.C09.decodeMessage_size data m h
+/-- `llmnr.DecodeResourceRecord`: `rr.RData = make([]byte, rr.RDLength)` is reached, for every input
+    and offset, only when that many bytes follow the ten fixed ones; a decoded record's RDATA is
+    exactly that allocation -/
+theorem llmnr_rdata_alloc_bound (data : Bytes) (off : Nat) :
+    (Manticore.C09.rdataAllocOf data off + off + 10 ≤ data.length ∨ Manticore.C09.rdataAllocOf data off = 0) ∧
+    ∀ r off', Manticore.C09.decodeRR data off = .ok (r, off') →
+      ∃ nx, off < nx ∧ r.rdata.length = Manticore.C09.rdataAllocOf data nx :=
+  ⟨Manticore.C09.rdataAllocOf_le data off, fun r off' h => (Manticore.C09.decodeRR_size data off r off' h).2.2.2⟩
+/-- the clause is not vacuous: with the `make` in front of the "truncated rdata" check an 11-byte
+    input costs 65535 bytes -/
+example : Manticore.C09.rdataAllocEager [0, 0, 1, 0, 1, 0, 0, 0, 0, 0xff, 0xff] 1 = 65535 := by decide
+example : Manticore.C09.rdataAllocOf [0, 0, 1, 0, 1, 0, 0, 0, 0, 0xff, 0xff] 1 = 0 := by decide
+
+/-- **allocation, `NBTNSPacket.Unmarshal`**: the decoded packet (header 48, per question name +
+    scope + 16, per record name + scope + 32 + RDATA) is at most eight times the input -/
+theorem nbns_unmarshal_alloc_bound (data : Bytes) (n : Nat) (p : Manticore.C10.Packet)
+    (h : Manticore.C10.unmarshal data = .ok (n, p)) : p.size ≤ 8 * data.length :=
+  Manticore.C10.unmarshal_size data n p h
+/-- the `rr.RData = make([]byte, rr.RDLength)` of `unmarshalRRs` is reached only when that many bytes
+    follow; a decoded record's RDATA is exactly that allocation -/
+theorem nbns_rdata_alloc_bound (data : Bytes) (off : Nat) :
+    (Manticore.C10.rdataAllocOf data off + off + 10 ≤ data.length ∨ Manticore.C10.rdataAllocOf data off = 0) ∧
+    ∀ r off', Manticore.C10.unmarshalRR data off = .ok (r, off') →
+      ∃ nx, off < nx ∧ r.rdata.length = Manticore.C10.rdataAllocOf data nx :=
+  ⟨Manticore.C10.rdataAllocOf_le data off, fun r off' h => (Manticore.C10.unmarshalRR_size data off r off' h).2.2.2⟩
+/-- a decoded NetBIOS name: name and scope together are at least 16 bytes shorter than the encoded text -/
+theorem nbns_first_level_decode_alloc_bound (enc : Bytes) (n : Manticore.C10.NBName)
+    (h : Manticore.C10.firstLevelDecode enc = .ok n) : n.size + 16 ≤ enc.length :=
+  Manticore.C10.firstLevelDecode_size enc n h
+
+/-- **allocation, `NBTTransport.Receive`**: the frame body is allocated from the 17-bit LENGTH field
+    of the four header bytes BEFORE it is read (`buffer := make([]byte, length)`), so what `Receive`
+    allocates is bounded by the field's range — 4 + 131071 bytes — and not by what the peer sends:
+    "in proportion to the input" holds here only as this fixed cap (four bytes `00 01 ff ff` cost
+    131075).  A message that is returned is exactly that buffer and did arrive. -/
+theorem nbt_receive_alloc_bound (s : Manticore.C11.Stream) :
+    Manticore.C11.receiveAllocOf s ≤ 131075 ∧
+    ∀ m s', Manticore.C11.receive s = .ok (m, s') → m.length + 4 = Manticore.C11.receiveAllocOf s ∧ m.length + 4 ≤ s.length :=
+  ⟨Manticore.C11.receiveAllocOf_le s, fun m s' h => Manticore.C11.receive_alloc s m s' h⟩
+/-- the cap is reached by four bytes -/
+example : Manticore.C11.receiveAllocOf [0, 1, 0xff, 0xff] = 131075 := by decide
+
 /-! ### PKCS#7, GPP cpasswords, UTF-16 text (models of C12) -/
 
 /-- `pkcs7.Unpad` never panics -/
@@ -343,6 +588,36 @@ theorem utf16_decode_total (b : Bytes) : ∃ s, Manticore.C12.GPP.decodeUTF16LE 
 /-- `DecodeUTF16LE` reads exactly `len(b)/2` code units (its one allocation is `make([]uint16, len(b)/2)`) -/
 theorem utf16_decode_units (b : Bytes) (us : List UInt16) (h : Manticore.C12.GPP.unitsLE b = .ok us) :
     us.length = b.length / 2 := (Manticore.C12.GPP.unitsLE_length b us h).symm
+
+/-! #### allocation (Model/C12Alloc.lean, Lemmas/C07AllocRest.lean) -/
+
+/-- **allocation, `pkcs7.Unpad`**: a re-slice of its input, nothing is allocated -/
+theorem pkcs7_unpad_alloc_bound (buf m : Bytes) (h : Manticore.C12.PKCS7.unpad buf = .ok m) : m.length < buf.length :=
+  Manticore.C07A.Rest.pkcs7_unpad_alloc_bound buf m h
+/-- **allocation, `utf16.DecodeUTF16LE`**: `make([]uint16, len(b)/2)`, the rune slice of `utf16.Decode`
+    and the returned string (`utf16AllocOf`) are at most 9 bytes per code unit on every input; the
+    string is at most 3 bytes per code unit (attained: U+20AC) -/
+theorem utf16_decode_alloc_bound (b : Bytes) :
+    Manticore.C12.GPP.utf16AllocOf b ≤ 9 * (b.length / 2) ∧
+    ∀ s, Manticore.C12.GPP.decodeUTF16LE b = .ok s →
+      s.length ≤ Manticore.C12.GPP.utf16AllocOf b ∧ s.length ≤ 3 * (b.length / 2) :=
+  ⟨Manticore.C07A.Rest.utf16AllocOf_le b, fun s h => Manticore.C07A.Rest.decodeUTF16LE_alloc_bound b s h⟩
+/-- **allocation, `gppp.GPPPDecryptBytes`**: the IV, `plaintext := make([]byte, len(ciphertext))` and the
+    UTF-16 decoding behind `Unpad` (`gppBytesAllocOf`) are at most `6·len(c) + 16` on every input and for
+    every block function in place of AES; the result is no bigger -/
+theorem gpp_decrypt_bytes_alloc_bound (D : Bytes → Bytes) (c : Bytes) :
+    Manticore.C12.GPP.gppBytesAllocOf D c ≤ 6 * c.length + 16 ∧
+    ∀ s, Manticore.C12.GPP.decryptBytes D c = .ok s →
+      s.length ≤ Manticore.C12.GPP.gppBytesAllocOf D c ∧ s.length ≤ 3 * (c.length / 2) :=
+  ⟨Manticore.C07A.Rest.gppBytesAllocOf_le D c, fun s h => Manticore.C07A.Rest.decryptBytes_alloc_bound D c s h⟩
+/-- **allocation, `gppp.GPPPDecryptBase64`**: re-padding, the base64 buffer (made before a character is
+    looked at: `len/4·3`) and `GPPPDecryptBytes` behind a successful decode (`gppAllocOf`) are at most
+    `7·len(s) + 32` on every input; the result is no bigger, and `8·len(result) ≤ 9·len(s) + 18` -/
+theorem gpp_decrypt_base64_alloc_bound (D : Bytes → Bytes) (s : Bytes) :
+    Manticore.C12.GPP.gppAllocOf D s ≤ 7 * s.length + 32 ∧
+    ∀ r, Manticore.C12.GPP.decryptBase64 D s = .ok r →
+      r.length ≤ Manticore.C12.GPP.gppAllocOf D s ∧ 8 * r.length ≤ 9 * s.length + 18 :=
+  ⟨Manticore.C07A.Rest.gppAllocOf_le D s, fun r h => Manticore.C07A.Rest.decryptBase64_alloc_bound D s r h⟩
 
 /-! ### UUID and GUID readers (models of C13) -/
 
@@ -374,6 +649,25 @@ theorem guid_parse_total (F : Manticore.C13.Fmt) (s : Bytes) : Manticore.C13.par
 /-- `guid.FromString` never panics -/
 theorem guid_from_string_total (s : Bytes) : Manticore.C13.fromString s ≠ .panic :=
   Manticore.C13.fromString_never_panics s
+
+/-- **allocation, UUID / GUID readers**: every result is a structure of fixed-width fields whatever the
+    length of the input (31, 30, 46, 23, 40 bytes: 8 per integer field, one per array byte) -/
+theorem uuid_guid_fixed_alloc_bound :
+    (∀ m u, Manticore.C13.unmarshal m = .ok u → Manticore.C07A.Fixed.uuidSize u = 31) ∧
+    (∀ s u, Manticore.C13.uuidFromString s = .ok u → Manticore.C07A.Fixed.uuidSize u = 31) ∧
+    (∀ m v, Manticore.C13.v1Unmarshal m = .ok v → Manticore.C07A.Fixed.v1Size v = 30) ∧
+    (∀ m v, Manticore.C13.v1FromBytes m = .ok v → Manticore.C07A.Fixed.v1Size v = 30) ∧
+    (∀ s v, Manticore.C13.v1FromString s = .ok v → Manticore.C07A.Fixed.v1Size v = 30) ∧
+    (∀ m v, Manticore.C13.v2Unmarshal m = .ok v → Manticore.C07A.Fixed.v2Size v = 46) ∧
+    (∀ m v, Manticore.C13.v2FromBytes m = .ok v → Manticore.C07A.Fixed.v2Size v = 46) ∧
+    (∀ s v, Manticore.C13.v2FromString s = .ok v → Manticore.C07A.Fixed.v2Size v = 46) ∧
+    (∀ m v, Manticore.C13.v8Unmarshal m = .ok v → Manticore.C07A.Fixed.v8Size v = 23) ∧
+    (∀ m v, Manticore.C13.v8FromBytes m = .ok v → Manticore.C07A.Fixed.v8Size v = 23) ∧
+    (∀ s v, Manticore.C13.v8FromString s = .ok v → Manticore.C07A.Fixed.v8Size v = 23) ∧
+    (∀ b g, Manticore.C13.fromRawBytes b = .ok g → Manticore.C07A.Fixed.guidSize g = 40) ∧
+    (∀ F s g, Manticore.C13.parse F s = .ok g → Manticore.C07A.Fixed.guidSize g = 40) ∧
+    (∀ s g, Manticore.C13.fromString s = .ok g → Manticore.C07A.Fixed.guidSize g = 40) :=
+  Manticore.C07A.Fixed.c13_fixed_alloc_bound
 
 /-! ### key-credential blobs (models of C14 and C15) -/
 
@@ -411,11 +705,93 @@ theorem key_credential_time_total (raw : Bytes) : ∃ t, Manticore.C15.convertFr
 theorem key_credential_device_id_total (d : Bytes) : ∃ g, Manticore.C14.Guid.fromRawBytes d = .ok g :=
   Manticore.C14.guid_fromRawBytes_ok d
 
+/-! #### allocation (Model/C14Alloc.lean, Lemmas/C07AllocKeys.lean) -/
+
+/-- **allocation, `KeyCredential.FromBytes`**: what the entry loop allocates — the identifier text, the
+    legacy-usage string, the two copies inside the custom key information; every other field is a view
+    of the blob or a number — summed over all entries reached, replaced results and the failing entry
+    included (`kcAllocOf`), is at most `2·len(b)`; a decoded credential's allocated part is no bigger,
+    and its whole size grows by at most `3·len(b)` -/
+theorem key_credential_parse_alloc_bound (k : Manticore.C14.KeyCredential) (b : Bytes) :
+    Manticore.C14.kcAllocOf k b ≤ 2 * b.length ∧
+    ∀ k', Manticore.C14.KeyCredential.fromBytes k b = .ok k' →
+      k'.owned ≤ k.owned + Manticore.C14.kcAllocOf k b ∧ k'.size + 8 ≤ k.size + 3 * b.length :=
+  Manticore.C07A.Keys.keyCredential_fromBytes_alloc_bound k b
+/-- the same from a fresh credential: `size ≤ 3·len(b) + 160` -/
+theorem key_credential_parse_fresh_alloc_bound (b : Bytes) (k' : Manticore.C14.KeyCredential)
+    (h : Manticore.C14.KeyCredential.fromBytes {} b = .ok k') :
+    k'.size ≤ 3 * b.length + 160 ∧ k'.owned ≤ Manticore.C14.kcAllocOf {} b ∧ Manticore.C14.kcAllocOf {} b ≤ 2 * b.length :=
+  Manticore.C07A.Keys.keyCredential_fromBytes_alloc_bound_zero b k' h
+/-- **allocation, `RSAKeyMaterial.FromBytes`** (no `make`: modulus and primes are slice views behind the
+    64-bit sum check; `rsaAllocOf` = the bytes they span, what a copying variant would cost): at most
+    `len(v)` on every input; a parsed value's three fields are exactly that, its size at most `2·len(v)` -/
+theorem rsa_key_material_parse_alloc_bound (rk r : Manticore.C14.RSAKeyMaterial) (v e : Bytes) (flag : Bool)
+    (h : Manticore.C14.RSAKeyMaterial.fromBytes rk v e = .ok (r, flag)) :
+    Manticore.C14.rsaAllocOf v ≤ v.length ∧
+    (flag = false → r.modulus.length + r.prime1.length + r.prime2.length = Manticore.C14.rsaAllocOf v ∧
+      r.size ≤ 2 * v.length) ∧
+    (flag = true → Manticore.C14.rsaAllocOf v = 0 ∧ r.size ≤ rk.size + v.length) :=
+  Manticore.C07A.Keys.rsa_fromBytes_alloc_bound rk r v e flag h
+/-- **allocation, `CustomKeyInformation.FromBytes`**: `Reserved = make([]byte, 10)` and
+    `EncodedExtendedCKI = make([]byte, RawBytesSize-19)` (`ckiAllocOf`) are at most `len(b)` on every
+    input, and exactly what a fresh receiver owns afterwards -/
+theorem custom_key_information_alloc_bound (c : Manticore.C14.CKI) (b : Bytes) :
+    Manticore.C14.ckiAllocOf b ≤ b.length ∧
+    (c.fromBytes b).1.owned ≤ c.owned + Manticore.C14.ckiAllocOf b ∧
+    (c.owned = 0 → (c.fromBytes b).1.owned = Manticore.C14.ckiAllocOf b) ∧
+    (c.fromBytes b).1.size ≤ c.size + 2 * b.length :=
+  Manticore.C07A.Keys.cki_fromBytes_alloc_bound c b
+/-- **allocation, `DNWithBinary.Parse`**: the announced size is only compared, never used as a length;
+    `hex.DecodeString` makes `len(hex)/2` bytes and `string(parts[3])` copies the DN behind the
+    comparison (`dnAllocOf`): at most `len(raw)` on every input, and exactly the size of a parsed value -/
+theorem dn_with_binary_parse_alloc_bound (raw : Bytes) :
+    Manticore.C14.dnAllocOf raw ≤ raw.length ∧
+    ∀ bin dn, Manticore.C14.dnParse raw = .ok (bin, dn) →
+      Manticore.C14.dnSize (bin, dn) = Manticore.C14.dnAllocOf raw ∧ Manticore.C14.dnSize (bin, dn) ≤ raw.length :=
+  Manticore.C07A.Keys.dnParse_alloc_bound raw
+/-- the clause is not vacuous: allocating by the announced size in front of the comparison costs
+    2 000 000 000 bytes for these 17 -/
+example : Manticore.C14.dnAllocEager (asciiBytes "B:4000000000:00:x") = 2000000000 := by decide
+/-- **allocation, `ConvertToBinaryIdentifier`**: the hex / base64 output buffer is no longer than the text -/
+theorem key_credential_identifier_alloc_bound (s : Bytes) (v : UInt32) :
+    Manticore.C14.toBinaryIdAllocOf s v ≤ s.length ∧
+    ∀ b, Manticore.C14.toBinaryId s v = some b → b.length ≤ Manticore.C14.toBinaryIdAllocOf s v ∧ b.length ≤ s.length :=
+  Manticore.C07A.Keys.toBinaryId_alloc_bound s v
+/-- fixed-size results of the key-credential readers: version (at most 20), GUID (40), binary time (24) -/
+theorem key_credential_fixed_alloc_bound :
+    (∀ b, Manticore.C14.versionSize (Manticore.C14.versionFromBytes b) ≤ 20) ∧
+    (∀ d g, Manticore.C14.Guid.fromRawBytes d = .ok g → g.size = 40) ∧
+    (∀ raw t, Manticore.C15.convertFromBinaryTime raw = .ok t → Manticore.C14.kcTimeSize t = 24) :=
+  ⟨fun b => (Manticore.C07A.Keys.versionFromBytes_alloc_bound b).1,
+   fun d g h => Manticore.C07A.Keys.guid_fromRawBytes_alloc_bound d g h,
+   fun raw t h => (Manticore.C07A.Keys.convertFromBinaryTime_alloc_bound raw t h).1⟩
+
 /-! ### SIDs (model of C16) -/
 
 /-- binary SIDs (re-exported from C16): total on every byte string -/
 theorem sid_total (b : Bytes) : ∃ s, Manticore.C16.parseSID b = .ok s := Manticore.C16.sid_total b
 
+
+/-- **allocation, `ParseSIDFromBytes`**: the slice slots, the `Sprintf` texts and the joined string
+    (`sidAllocOf`; nothing in front of the `len < 8+4·count` check) are at most `10·len(b)` on every
+    input; the text is at most `3·len(b) + 2` characters -/
+theorem sid_alloc_bound (b : Bytes) :
+    Manticore.C16.sidAllocOf b ≤ 10 * b.length ∧
+    ∀ s, Manticore.C16.parseSID b = .ok s → s.length ≤ Manticore.C16.sidAllocOf b ∧ s.length ≤ 3 * b.length + 2 :=
+  ⟨Manticore.C07A.Rest.sidAllocOf_le b, fun s h => Manticore.C07A.Rest.parseSID_alloc_bound b s h⟩
+/-- **allocation, `GetDomainFromDistinguishedName`**: the result is no longer than the input; the
+    strings built on the way (`domain += … + "."` once per `DC=` part, `dnAllocOf`) add up to at most
+    `(len+1)·(len+16)` — quadratic, and really so (16 copies of `DC=,` cost 136 bytes of strings) -/
+theorem dn_domain_alloc_bound (dn : Bytes) :
+    (Manticore.C16.domainOfDN dn).length ≤ dn.length ∧
+    Manticore.C16.dnAllocOf dn ≤ (dn.length + 1) * (dn.length + 16) :=
+  ⟨Manticore.C07A.Rest.domainOfDN_alloc_bound dn, Manticore.C07A.Rest.dnAllocOf_le dn⟩
+/-- **allocation, LDAP time parsers and the binary time**: one integer / one time value -/
+theorem ldap_time_fixed_alloc_bound :
+    (∀ s, Manticore.C07A.Fixed.int64Size (Manticore.C15.ldapToUnix s) = 8) ∧
+    (∀ s, Manticore.C07A.Fixed.int64Size (Manticore.C15.ldapDurationToSeconds s) = 8) ∧
+    (∀ raw t, Manticore.C15.convertFromBinaryTime raw = .ok t → Manticore.C07A.Fixed.kcTimeSize t = 24) :=
+  Manticore.C07A.Fixed.c15_fixed_alloc_bound
 
 /-! ### addresses, port ranges, LM:NT credentials (models of C20) -/
 
@@ -427,6 +803,16 @@ theorem ipv6_parse_total (s : Bytes) : ∃ r, Manticore.C20.parseIPv6 s = .ok r 
 theorem port_range_parse_total (s : Bytes) : Manticore.C20.parsePortRange s ≠ .panic := Manticore.C20.port_parse_total s
 /-- `credentials.ParseLMNTHashes` never panics -/
 theorem lmnt_parse_total (s : Bytes) : Manticore.C20.parseLMNT s ≠ .panic := Manticore.C20.lmnt_total s
+
+/-- **allocation, address / port-range / LM:NT parsers**: fixed-size results (an IPv4 at most 40, an
+    IPv6 at most 64, a port range two integers — the ports in between are never materialised —, two
+    hashes of 0 or 32 characters) -/
+theorem address_parsers_fixed_alloc_bound :
+    (∀ s r, Manticore.C20.parseIPv4 s = .ok r → Manticore.C07A.Fixed.ipv4Size r ≤ 40) ∧
+    (∀ s r, Manticore.C20.parseIPv6 s = .ok r → Manticore.C07A.Fixed.ipv6Size r ≤ 64) ∧
+    (∀ s r, Manticore.C20.parsePortRange s = .ok r → Manticore.C07A.Fixed.portRangeSize r = 16) ∧
+    (∀ s r, Manticore.C20.parseLMNT s = .ok r → Manticore.C07A.Fixed.lmntSize r ≤ 64) :=
+  Manticore.C07A.Fixed.c20_fixed_alloc_bound
 
 /-! ### non-vacuity: the former crash inputs are now values or errors of the models -/
 
